@@ -72,3 +72,40 @@ Qed.
 Example in_handler_term :
   known 15 = true /\ emulate {| blocked := true; dfl := false |} 15 = TerminatedBy 15.
 Proof. vm_compute. split; reflexivity. Qed.
+
+(** The two halves above glued into one total statement: for EVERY integer and every calling
+    context the outcome is the kernel's default when the number is in the table and [Error]
+    otherwise; hence the context (inside the signal's own handler or not, disposition already
+    default or not) never matters, and the emulation never lets a user handler run nor ends
+    the process by a plain exit. *)
+Lemma total_spec st s :
+  emulate st s = if known s then kernel_default s else Error.
+Proof.
+  destruct (known s) eqn:K; [apply matches_kernel | apply unknown_is_error]; exact K.
+Qed.
+
+Lemma context_independent st st' s : emulate st s = emulate st' s.
+Proof. rewrite !total_spec. reflexivity. Qed.
+
+Lemma kernel_default_shape s :
+  kernel_default s = Continues \/ kernel_default s = Stopped \/ kernel_default s = TerminatedBy s.
+Proof.
+  unfold kernel_default. destruct (mem s kernel_ignores); [auto|].
+  destruct (mem s kernel_stops); auto.
+Qed.
+
+Lemma never_handler_nor_exit st s : emulate st s <> HandlerRuns /\ emulate st s <> Exits.
+Proof.
+  rewrite total_spec. destruct (known s).
+  - destruct (kernel_default_shape s) as [H|[H|H]]; rewrite H; split; discriminate.
+  - split; discriminate.
+Qed.
+
+(** Only the signal itself can be the cause of death: the emulation never terminates the
+    process with a different signal (SIGABRT, SIGKILL, ...) than the one asked for. *)
+Lemma terminated_by_itself st s t : emulate st s = TerminatedBy t -> t = s.
+Proof.
+  rewrite total_spec. destruct (known s); [|discriminate].
+  destruct (kernel_default_shape s) as [H|[H|H]]; rewrite H; intro E; try discriminate.
+  injection E as E. now subst.
+Qed.
